@@ -2,6 +2,7 @@
 //! properties: C03 C10
 //! kind: complete
 //! companion-of: CharInfo::new
+//! decides: CharInfo::new
 //! harness: charinfo_new_accepts_exactly_fitting_values
 //! harness: charinfo_reset_cate_idset_frame
 // Loop-free harnesses over the FULL input domain (2^32 x 2^32 x 2 x 2 x 2^16): complete proofs, not bounded.
